@@ -214,4 +214,133 @@ theorem civil_year_bounds (z : Int) :
       · constructor <;> omega
       · subst h1; constructor <;> omega
 
+/-! ### the other direction: `civilFromDays` inverts `daysFromCivil` on existing dates -/
+/-- days before March-based year `n` of an era, up to a constant: strictly increasing by ≥ 365 -/
+theorem f_step (x y : Int) (hx : 0 ≤ x) (h : x + 1 ≤ y) :
+    x * 365 + x / 4 - x / 100 + 365 ≤ y * 365 + y / 4 - y / 100 := by
+  have h4 : x / 4 ≤ y / 4 := Int.ediv_le_ediv (by omega) (by omega)
+  have hq : (x / 4) / 25 = x / 100 := by omega
+  have hq' : (y / 4) / 25 = y / 100 := by omega
+  -- (y/4)/25 - (x/4)/25 ≤ y/4 - x/4
+  have h25 : (y / 4) / 25 - (x / 4) / 25 ≤ y / 4 - x / 4 := by
+    have : 0 ≤ x / 4 := by omega
+    generalize x / 4 = u at *
+    generalize y / 4 = v at *
+    omega
+  omega
+
+
+theorem f_unique_lt (a a' b b' : Int) (ha' : a ≤ 399) (hb : 0 ≤ b)
+    (p1 : 0 ≤ a') (p4 : b' ≤ 365)
+    (p6 : b' = 365 → (a' + 1) % 4 = 0 ∧ ((a' + 1) % 100 ≠ 0 ∨ a' = 399))
+    (p5 : a' * 365 + a' / 4 - a' / 100 + b' = a * 365 + a / 4 - a / 100 + b) : ¬ (a' + 1 ≤ a) := by
+  intro hlt
+  have s1 := f_step a' a p1 hlt
+  have hb365 : b' = 365 := by omega
+  obtain ⟨l1, l2⟩ := p6 hb365
+  have l3 : (a' + 1) % 100 ≠ 0 := by omega
+  by_cases he : a = a' + 1
+  · subst he; omega
+  · have s2 := f_step (a' + 1) a (by omega) (by omega)
+    omega
+
+theorem f_unique (a a' b b' : Int) (ha : 0 ≤ a) (ha' : a ≤ 399) (hb : 0 ≤ b) (hb' : b ≤ 365)
+    (hl : b = 365 → (a + 1) % 4 = 0 ∧ ((a + 1) % 100 ≠ 0 ∨ a = 399))
+    (p1 : 0 ≤ a') (p2 : a' ≤ 399) (p3 : 0 ≤ b') (p4 : b' ≤ 365)
+    (p6 : b' = 365 → (a' + 1) % 4 = 0 ∧ ((a' + 1) % 100 ≠ 0 ∨ a' = 399))
+    (p5 : a' * 365 + a' / 4 - a' / 100 + b' = a * 365 + a / 4 - a / 100 + b) : a' = a ∧ b' = b := by
+  have n1 := f_unique_lt a a' b b' ha' hb p1 p4 p6 p5
+  have n2 := f_unique_lt a' a b' b p2 p3 ha hb' hl p5.symm
+  have : a' = a := by omega
+  subst this
+  exact ⟨rfl, by omega⟩
+
+theorem yoeDoy_unique (a b : Int) (ha : 0 ≤ a) (ha' : a ≤ 399) (hb : 0 ≤ b) (hb' : b ≤ 365)
+    (hl : b = 365 → (a + 1) % 4 = 0 ∧ ((a + 1) % 100 ≠ 0 ∨ a = 399)) :
+    yoeDoy (a * 365 + a / 4 - a / 100 + b) = (a, b) := by
+  have h1 : 0 ≤ a * 365 + a / 4 - a / 100 + b := by omega
+  have h2 : a * 365 + a / 4 - a / 100 + b ≤ 146096 := by omega
+  obtain ⟨p1, p2, p3, p4, p5, p6⟩ := yoeDoy_spec _ h1 h2
+  obtain ⟨e1, e2⟩ := f_unique a _ b _ ha ha' hb hb' hl p1 p2 p3 p4 p6 p5
+  exact Prod.ext e1 e2
+
+/-- length of the month with March-based index `mp` (February as the leap-year length) -/
+def mpLen (mp : Int) : Int :=
+  if mp = 11 then 29 else if mp = 1 ∨ mp = 3 ∨ mp = 6 ∨ mp = 8 then 30 else 31
+
+theorem monthDay_unique (mp d : Int) (h1 : 0 ≤ mp) (h2 : mp ≤ 11) (h3 : 1 ≤ d) (h4 : d ≤ mpLen mp) :
+    monthDay ((153 * mp + 2) / 5 + d - 1) = (mp, d) := by
+  unfold mpLen at h4
+  have hc : mp = 0 ∨ mp = 1 ∨ mp = 2 ∨ mp = 3 ∨ mp = 4 ∨ mp = 5 ∨ mp = 6 ∨ mp = 7 ∨ mp = 8 ∨
+      mp = 9 ∨ mp = 10 ∨ mp = 11 := by omega
+  unfold monthDay
+  rcases hc with h | h | h | h | h | h | h | h | h | h | h | h <;> subst h <;> simp at h4 ⊢ <;>
+    constructor <;> omega
+
+
+/-- `civilFromDays` inverts `daysFromCivil` on every calendar date that exists -/
+theorem civil_days_roundtrip (y : Int) (m d : Nat) (hm1 : 1 ≤ m) (hm2 : m ≤ 12) (hd1 : 1 ≤ d)
+    (hd2 : d ≤ daysInMonth y m) : civilFromDays (daysFromCivil y m d) = (y, m, d) := by
+  -- March-based year, month index, day of year
+  have hmc : m = 1 ∨ m = 2 ∨ m = 3 ∨ m = 4 ∨ m = 5 ∨ m = 6 ∨ m = 7 ∨ m = 8 ∨ m = 9 ∨ m = 10 ∨
+      m = 11 ∨ m = 12 := by omega
+  unfold daysFromCivil
+  simp only
+  generalize hy' : (if m ≤ 2 then y - 1 else y) = y'
+  generalize hmp : (if m > 2 then (m : Int) - 3 else (m : Int) + 9) = mp
+  have hmp1 : 0 ≤ mp ∧ mp ≤ 11 := by
+    rcases hmc with h | h | h | h | h | h | h | h | h | h | h | h <;> subst h <;> simp at hmp <;> omega
+  have hyoe : 0 ≤ y' - y' / 400 * 400 ∧ y' - y' / 400 * 400 ≤ 399 := by omega
+  generalize hera : y' / 400 = era at *
+  generalize hyoe' : y' - era * 400 = yoe at *
+  -- the day of month is within the month's length
+  have hlen : (d : Int) ≤ mpLen mp ∧ ((d : Int) = 29 → mp = 11 → isLeapYear y = true) := by
+    unfold mpLen
+    rcases hmc with h | h | h | h | h | h | h | h | h | h | h | h <;> subst h <;>
+      simp [daysInMonth] at hd2 hmp <;> subst hmp <;> simp <;> first | omega | (split at hd2 <;> simp_all <;> omega)
+  have hdoy : 0 ≤ (153 * mp + 2) / 5 + (d : Int) - 1 ∧ (153 * mp + 2) / 5 + (d : Int) - 1 ≤ 365 := by
+    have := hlen.1
+    unfold mpLen at this
+    split at this
+    · omega
+    · split at this <;> omega
+  -- a day-of-year of 365 is 29 February: the (March-based) next year is a leap year
+  have hleap : (153 * mp + 2) / 5 + (d : Int) - 1 = 365 →
+      (yoe + 1) % 4 = 0 ∧ ((yoe + 1) % 100 ≠ 0 ∨ yoe = 399) := by
+    intro h365
+    have hmp11 : mp = 11 := by
+      have := hlen.1
+      unfold mpLen at this
+      split at this
+      · assumption
+      · split at this <;> omega
+    have hd29 : (d : Int) = 29 := by subst hmp11; omega
+    have hl := hlen.2 hd29 hmp11
+    have hm2' : m = 2 := by
+      rcases hmc with h | h | h | h | h | h | h | h | h | h | h | h <;> subst h <;> simp at hmp <;> omega
+    subst hm2'
+    simp at hy'
+    have hyy : y = era * 400 + yoe + 1 := by omega
+    unfold isLeapYear at hl
+    simp only [Bool.or_eq_true, Bool.and_eq_true, beq_iff_eq, bne_iff_ne, ne_eq] at hl
+    omega
+  unfold civilFromDays
+  simp only
+  have hz : era * 146097 + (yoe * 365 + yoe / 4 - yoe / 100 + ((153 * mp + 2) / 5 + (d : Int) - 1)) - 719468 + 719468
+      = era * 146097 + (yoe * 365 + yoe / 4 - yoe / 100 + ((153 * mp + 2) / 5 + (d : Int) - 1)) := by omega
+  rw [hz]
+  have hdoe : 0 ≤ yoe * 365 + yoe / 4 - yoe / 100 + ((153 * mp + 2) / 5 + (d : Int) - 1) ∧
+      yoe * 365 + yoe / 4 - yoe / 100 + ((153 * mp + 2) / 5 + (d : Int) - 1) ≤ 146096 := by omega
+  have hera' : (era * 146097 + (yoe * 365 + yoe / 4 - yoe / 100 + ((153 * mp + 2) / 5 + (d : Int) - 1))) / 146097 = era := by
+    omega
+  rw [hera']
+  have hsub : era * 146097 + (yoe * 365 + yoe / 4 - yoe / 100 + ((153 * mp + 2) / 5 + (d : Int) - 1)) - era * 146097
+      = yoe * 365 + yoe / 4 - yoe / 100 + ((153 * mp + 2) / 5 + (d : Int) - 1) := by omega
+  rw [hsub, yoeDoy_unique yoe _ hyoe.1 hyoe.2 hdoy.1 hdoy.2 hleap]
+  simp only
+  rw [monthDay_unique mp d hmp1.1 hmp1.2 (by omega) hlen.1]
+  simp only
+  rcases hmc with h | h | h | h | h | h | h | h | h | h | h | h <;> subst h <;> simp at hmp hy' <;>
+    subst hmp <;> simp <;> omega
+
 end Rcgen
